@@ -19,6 +19,12 @@ unsafe impl<S: AsFd> OpCode for OpenFile<S> {
     }
 
     unsafe fn set_result(&mut self, _: &mut Self::Control, res: &io::Result<usize>, _: &Extra) {
+        // The blocking fallback (`call`) has already stored the descriptor and
+        // reports `Ok(0)`; only a completion of the io-uring entry carries the
+        // new descriptor in the result.
+        if self.opened_fd.is_some() {
+            return;
+        }
         if let Ok(fd) = res {
             // SAFETY: fd is a valid fd returned from kernel
             let fd = unsafe { OwnedFd::from_raw_fd(*fd as _) };
